@@ -16,6 +16,8 @@ SUFFIX = ("u", "v", "w")
 def gen_knots(rng, degree, n_ctrl, clamped=True, den=64):
     """Non-decreasing knot vector of length n_ctrl+degree+1 on [0,1]; interior knots k/den with multiplicity <= degree."""
     n_int = n_ctrl - degree - 1
+    if n_int >= den - 1:
+        den = 4096          # long knot vectors need a finer grid
     interior = []
     if n_int > 0:
         # choose distinct values and multiplicities summing to n_int
